@@ -44,10 +44,24 @@ type HealthCase struct {
 	Scenarios []HealthScn `json:"scenarios"`
 }
 
-func genHealthScn(t *rapid.T) HealthScn {
+// genHealthScn draws scenario i of a batch; shapes rotate so that every batch of 8 holds every shape twice.
+func genHealthScn(t *rapid.T, i int) HealthScn {
 	s := HealthScn{Threshold: rapid.IntRange(1, 4).Draw(t, "threshold")}
 	n := rapid.IntRange(3, 9).Draw(t, "n")
-	switch rapid.IntRange(0, 3).Draw(t, "shape") {
+	switch i % 4 {
+	case 1: // a backend that comes up late, and whose checks fail again (fewer than the threshold) right after the first pass
+		s.Threshold = rapid.IntRange(2, 3).Draw(t, "lateThreshold")
+		for k := rapid.IntRange(1, 2).Draw(t, "lateBy"); k > 0; k-- {
+			s.Results = append(s.Results, false)
+		}
+		s.Results = append(s.Results, true)
+		for k := 0; k < s.Threshold-1; k++ {
+			s.Results = append(s.Results, false)
+		}
+		s.Results = append(s.Results, true)
+		for k := 0; k < s.Threshold; k++ {
+			s.Results = append(s.Results, false)
+		}
 	case 0: // near miss: threshold-1 failures, a pass, then threshold failures
 		if rapid.Bool().Draw(t, "late") {
 			s.Results = append(s.Results, false)
@@ -286,7 +300,7 @@ func TestPropHealth(t *testing.T) {
 	vh.Rapid(t, vh.Scale(2, 30), func(rt *rapid.T) {
 		var c HealthCase
 		for i := 0; i < 8; i++ {
-			c.Scenarios = append(c.Scenarios, genHealthScn(rt))
+			c.Scenarios = append(c.Scenarios, genHealthScn(rt, i))
 		}
 		recH.Check(rt, &c, func() vh.Outcome { return runBatch(recH, c.Scenarios, runHealthScn) })
 	})
